@@ -101,6 +101,52 @@ def all_subsets(n, nonempty=False):
 def suites_for(tier):
     return [("toy", False)] + ([("cl1024", True)] if tier != "quick" or os.path.exists(FIXTURES) else [])
 
+# ---------------------------------------------------------------------------------------------- arithmetic primitives
+def prims_pass(S, tier, label="prim"):
+    """the big-integer primitives the model re-implements (pow_mod with negative exponents, invert, divm, truncated remainder,
+    decimal printing + SHA-256, bit length, integer square root, gcd, primality, floor division) on random and corner inputs,
+    compared three ways: rug/GMP (implementation side), extracted OCaml, and vm_compute inside Coq (a sample)"""
+    rng = S.rng
+    def rz(bits, neg=True):
+        v = rng.getrandbits(rng.choice([1, 8, 32, 64, bits]))
+        return -v if (neg and rng.random() < 0.3) else v
+    n_each = 12 if tier == "quick" else 120
+    lines = []
+    for _ in range(n_each):
+        bits = rng.choice([16, 64, 128, 400])
+        n = rz(bits, False) | 1
+        lines.append("clprim 0 " + zl([rz(bits), rz(bits // 2), n + 2]))              # pow_mod, exponent may be negative (inverse or panic)
+        lines.append("clprim 0 " + zl([rz(bits), -rz(8, False) - 1, (n + 2) * 3]))   # negative exponent, modulus with a small factor
+        lines.append("clprim 1 " + zl([rz(bits), n + 1]))                               # invert
+        lines.append("clprim 2 " + zl([rz(bits), rz(bits), n + 2]))                     # divm
+        lines.append("clprim 2 " + zl([6 * rz(16, False), 4 * rz(16, False) + 2, 2 * (n + 2)]))   # divm through the gcd fallback
+        lines.append("clprim 3 " + zl([rz(bits), rz(bits // 2) or 1]))                  # truncated remainder, any signs
+        lines.append("clprim 4 " + zl([rz(bits)]))                                      # to_string + sha256
+        lines.append("clprim 5 " + zl([rz(bits)]))                                      # significant_bits
+        lines.append("clprim 6 " + zl([rz(bits, False)]))                               # sqrt
+        lines.append("clprim 7 " + zl([rz(bits), rz(bits)]))                            # gcd
+        lines.append("clprim 8 " + zl([rz(rng.choice([8, 16, 64]), False)]))            # primality
+        lines.append("clprim 9 " + zl([rz(bits), rz(bits // 2) or 3]))                  # floor division
+    for corner in ([0, 0, 5], [0, 1, 1], [2, -1, 4], [7, -3, 15], [-7, 3, 15], [1, 0, 1], [3, 5, 2]):
+        lines.append("clprim 0 " + zl(corner))
+    for corner in ([0], [1], [-1], [10**40], [-(10**40)], [2**256 - 1], [2**256]):
+        lines += ["clprim 4 " + zl(corner), "clprim 5 " + zl(corner)]
+    lines += ["clprim 6 " + zl([v]) for v in (0, 1, 2, 3, 4, 15, 16, 17, -1, 2**200, 2**200 - 1)]
+    lines += ["clprim 8 " + zl([v]) for v in (0, 1, 2, 3, 4, 9, 25, 561, 1105, 2047, 3215031751, 2**61 - 1, 2**89 - 1, (2**31 - 1) * (2**61 - 1))]
+    lines += ["clprim 1 " + zl(c) for c in ([0, 1], [0, 7], [3, 1], [6, 9], [-3, 7], [10, 7])]
+    S.run(lines, label=label)
+    return len(lines)
+
+def prim_coq_terms(S, limit=60):
+    out = []
+    for i, c in enumerate(S.cases):
+        t = c[0].split(" ")
+        if t[0] == "clprim" and len(out) < limit:
+            args = [int(x) for x in t[2].split(",")[1:]]
+            if all(abs(a) < 2**130 for a in args):
+                out.append((i, "o_prim %s%%N %s" % (t[1], C.coq_zl(args))))
+    return out
+
 # ====================================================================================== C13
 class C13:
     LEVEL = "proof"
@@ -110,9 +156,12 @@ class C13:
             "le-bit probable prime coprime to phi; negative cases: single attribute changed, m_i +- k*e with v*a_i^(+-k), m_i >= 2^lm, negative m_i, swapped positions, +-1 / zero on "
             "e, s, v, v + N, other bases, other key => verify must be false; model and implementation must agree on every decision")
     @staticmethod
+    def coq_eval_terms(S): return prim_coq_terms(S)
+    @staticmethod
     def generate(S, tier):
         P = _p(); rng = S.rng
         stats = {"signatures": 0, "negatives": {}, "disclosures": 0}
+        stats["primitive_cases"] = prims_pass(S, tier)
         def cnt(k): stats["negatives"][k] = stats["negatives"].get(k, 0) + 1
         for suite, fx in suites_for(tier):
             ns = [1, 2, 3, 4, 6] if suite == "toy" else [1, 3]
